@@ -28,7 +28,12 @@ Judge10(r) ==
   (* the two other sentences): both return ...                                    *)
   Chk("Returns",                  r.raised1 = "" /\ r.raised2 = "",
   (* ... the same: E-int exact, E-q6 +-2, nan/inf patterns equal                  *)
-  Chk("PairAgrees",               r.shape1 = r.shape2 /\ PairAgrees(p.kind, r.out1, r.out2),
+  (* (records of the scale-regime family carry the high parts of wide reals in    *)
+  (* hi1 / hi2; without them this is PairAgrees(p.kind, r.out1, r.out2))           *)
+  Chk("PairAgrees",               r.shape1 = r.shape2 /\
+                                  (IF "hi1" \in DOMAIN r
+                                   THEN PairAgreesWide(p.kind, r.out1, r.hi1, r.out2, r.hi2)
+                                   ELSE PairAgrees(p.kind, r.out1, r.out2)),
   "ok"))))))))
 Class10(r) ==
   LET ps == PairNamed(r.fw, r.fb, r.dom) IN
